@@ -69,6 +69,7 @@ def run (op : String) (a : List Q) : String :=
   | "applyAdjoint" => showL (SV.toList ((xt a 0).applyAdjoint (sv a 12)))
   | "inverse" => showL (xtL (xt a 0).inverse)
   | "mul" | "mulAssign" => showL (xtL (xt a 0 * xt a 12))
+  | "mulSelf" => showL (xtL (xt a 0 * xt a 0))
   | "toMatrix" => showL (smL (xt a 0).toMatrix)
   | "toMatrixAdjoint" => showL (smL (xt a 0).toMatrixAdjoint)
   | "toMatrixTranspose" => showL (smL (xt a 0).toMatrixTranspose)
@@ -121,6 +122,10 @@ def spec (op : String) (a : List Q) : Option String :=
   -- fromMatrix (toMatrix p) is a unit quaternion with the same matrix (= ±p), for every unit p
   | "qroundtrip" => some (showL ((1 : Q) :: m3L (quat a 0).toMatrix))
   | "qmul" => none
+  -- composition: the compact product is the 6x6 matrix product (theorem C16.mul_toMatrix), also when
+  -- the right operand of the in-place form is the same object
+  | "mul" | "mulAssign" => some (showL (xtL (xt a 0 * xt a 12)))
+  | "mulSelf" => some (showL (xtL (xt a 0 * xt a 0)))
   | _ => none
 
 end AlgDriver
